@@ -331,6 +331,7 @@ class Run
                    std::string const& message)
     {
         ++num_violations_;
+        ++tags_["violation:" + signature];
         // keep the first occurrence of each signature (shortest-first enumeration
         // makes it the simplest) and at most 200 in total
         if (violations_.size() < 200 && seen_sig_.insert(signature).second)
@@ -450,7 +451,8 @@ class Run
             // hash sets for cross-shard de-duplication
             dump_set(out_ + ".nontrivial", nontrivial_);
             dump_set(out_ + ".outcomes", outcomes_);
-            dump_set(out_ + ".states", states_);
+            // states are not dumped: shards partition the search roots, the driver sums
+            // the per-shard distinct counts
         }
         else
         {
@@ -462,7 +464,7 @@ class Run
   private:
     static void dump_set(std::string const& path, std::unordered_set<uint64_t> const& s)
     {
-        if (s.empty())
+        if (s.empty() || s.size() > 4000000)
             return;
         FILE* f = fopen(path.c_str(), "wb");
         if (!f)
